@@ -934,6 +934,15 @@ func (e *Engine) bindResults(env *rEnv, fn *ssa.Function, ret Value) {
 			env.vars[r.Name()] = vals[i]
 			env.typs[r.Name()] = r.Type()
 		}
+		if r.Name() == "" || r.Name() == "_" {
+			// results that had names on the verified tree keep them in contracts after a rewrite to unnamed results
+			if names := e.resultNames[fnName(fn)]; i < len(names) && names[i] != "" {
+				if _, taken := env.vars[names[i]]; !taken {
+					env.vars[names[i]] = vals[i]
+					env.typs[names[i]] = r.Type()
+				}
+			}
+		}
 		env.vars[fmt.Sprintf("result%d", i)] = vals[i]
 		env.typs[fmt.Sprintf("result%d", i)] = r.Type()
 		if i == n-1 && types.Identical(r.Type(), types.Universe.Lookup("error").Type()) {
